@@ -79,6 +79,7 @@ def start(scn, share_stores):
             return r
         s.add_worker(fn, plan)
     ea = s.start_execution(ARN + "m1", json.loads(json.dumps(scn.data)), name="e1")
+    s.plans = pl            # (the oracle of the run, for the reference semantics)
     return s, ea
 
 
@@ -206,6 +207,21 @@ LEGACY = {"C04-F1": "redelivered-task-never-requested", "C04-F2": "branch-reply-
           "C04-F4": "nested-join-result-volatile"}
 
 
+def model_skeleton(chk, scn, s, ea):
+    """the skeleton of the scenario's crash-free run as `Asl.run` computes it (None: outside the skeletons)"""
+    import crashmodel as cm
+    if scn.extra.get("machines") or not hasattr(s, "plans"):
+        return None
+    from props import c01
+    a = common.driver([c01.model_line(scn.machine, scn.data, ea, s.plans.oracle())])[0].split("\t")
+    if a[0] != "ok":
+        return None
+    try:
+        return cm.model_skeleton(json.loads(a[1]))
+    except cm.Unsupported:
+        return None
+
+
 def classify_by_model(f, case, impl, model):
     """A stuck run is the known finding `f` exactly when the protocol model (lean/AslModel/Crash.lean) with the switches
     of all open findings on reproduces what the engine did, and with `f`'s switch off it does not (`explained_by`, computed
@@ -317,13 +333,31 @@ def run(chk):
             ref_trace = list(s.trace)
             ops = s.broker.op_count.get("conn1", 0)
             ref_hist = s.history(ea)
+            # the skeleton: computed by the reference semantics from the machine, the input and the workers' behaviour
+            # (`sk` of Asl.run); what the engine's own events say is only the cross-check
             try:
-                skel = cm.skeleton(scn.machine, s.broker.log, ref.get("status") == "FAILED")
+                skel_engine = cm.skeleton(scn.machine, s.broker.log, ref.get("status") == "FAILED")
             except cm.Unsupported as e:
-                skel = None
-                chk.dist("skeleton.unsupported")
-            else:
+                skel_engine = None
+            skel = model_skeleton(chk, scn, s, ea)
+            if skel is not None:
+                chk.dist("skeleton.extracted")          # (the name the distribution had before: a skeleton there is)
+                chk.dist("skeleton.from_reference_semantics")
+                if skel_engine is not None and cj(skel_engine) == cj(skel):
+                    chk.dist("skeleton.engine_events_agree")
+                elif skel_engine is not None:
+                    chk.report("impl-differs-from-spec", {"scenario": scn.name, "machine": scn.machine, "input": scn.data, "plans": scn.plans},
+                               impl={"skeleton_from_engine_events": skel_engine}, model={"skeleton": skel},
+                               law="the visits of the crash-free run (the events the engine published) are the skeleton the "
+                                   "reference semantics computes")
+                else:
+                    chk.dist("skeleton.engine_events_unsupported")
+            elif skel_engine is not None:
+                skel = skel_engine
                 chk.dist("skeleton.extracted")
+                chk.dist("skeleton.from_engine_events_only")
+            else:
+                chk.dist("skeleton.unsupported")
             s.close()
             if ref.get("status") not in ("SUCCEEDED", "FAILED"):
                 raise common.InfraError("reference run of %s did not terminate" % scn.name)
@@ -440,7 +474,8 @@ def run(chk):
                        "publish/ack of the engine connection (terminal status still reached and equal)%s; restart = new engine objects, "
                        "same instance id, broker redelivers what was unacknowledged; distinct = distinct (scenario, store, crash point); "
                        "every crash run is also given to the crash protocol model (lean/AslModel/Crash.lean): the skeleton of the "
-                       "execution from the events the crash-free run published, the schedule from the run's handler invocations "
+                       "execution as Asl.run computes it from machine, input and worker behaviour (cross-checked against the events "
+                       "the crash-free run published), the schedule from the run's handler invocations "
                        "(events by publication ordinal, the crash as an operation or as a cut after the k-th publish/ack of a "
                        "handler); with the switches of the open findings on the model must predict whether the execution ends and "
                        "what it is left waiting for (model.* in the distribution); a stuck run is the known finding f exactly when "
